@@ -475,6 +475,25 @@ def align_check(ctx, c, outs):
         if d > 1e-4:
             return (f"{cls.__name__}.from_align_vectors(other, initial)*initial = {got.tolist()} but other = "
                     f"{target.data.tolist()} (exact rotation {q.tolist()} exists)")
+    # crystal vectors: Orientation / Misorientation estimates map the initial set onto the target set as well, carry the
+    # point group(s) of the phases, and report a vanishing root-mean-square distance
+    from orix.crystal_map import Phase
+    pg_t, pg_i = ["m-3m", "432", "mmm", "4/mmm"][len(c["vs"]) % 4], ["222", "m-3m", "4", "mmm"][len(c["vs"]) % 4]
+    mt = Mi(xyz=np.array(target.data, copy=True), phase=Phase(point_group=pg_t))
+    mi = Mi(xyz=np.array(init.data, copy=True), phase=Phase(point_group=pg_i))
+    scale = np.abs(target.data).max()
+    est, rmsd = O.from_align_vectors(mt, init, return_rmsd=True)
+    if not isinstance(est, O) or est.symmetry.name != pg_t:
+        return f"Orientation.from_align_vectors returns {type(est).__name__} with symmetry {getattr(est, 'symmetry', None)!r}, expected {pg_t}"
+    if np.abs((est * init).data - target.data).max() / scale > 1e-4 or abs(float(rmsd)) > 1e-4 * scale * math.sqrt(len(c["vs"])):
+        return (f"Orientation.from_align_vectors(other, initial)*initial = {(est * init).data.tolist()} (rmsd {float(rmsd)!r}) but other = "
+                f"{target.data.tolist()}")
+    est2 = M.from_align_vectors(mt, mi)
+    if not isinstance(est2, M) or [g.name for g in est2.symmetry] != [pg_i, pg_t]:
+        return (f"Misorientation.from_align_vectors returns {type(est2).__name__} with symmetry "
+                f"{[g.name for g in getattr(est2, 'symmetry', [])]}, expected {[pg_i, pg_t]}")
+    if np.abs((est2 * init).data - target.data).max() / scale > 1e-4:
+        return f"Misorientation.from_align_vectors(other, initial)*initial = {(est2 * init).data.tolist()} but other = {target.data.tolist()}"
     return None
 
 
